@@ -248,8 +248,10 @@ class Check:
         (evdir / f"{self.pid}.json").write_text(json.dumps(ev, indent=1, default=str))
         for k in self.known:
             print(f"KNOWN-FINDING: property={self.pid} {k}")
-        for path, no_input in self.violations:
-            print(f"VIOLATION property={self.pid} replay={path}" + (" no-failing-input-found" if no_input else ""))
+        # violations that come with a failing input first; "no-failing-input-found" is said only when the search for an input found none at all
+        found = any(not no_input for _, no_input in self.violations)
+        for path, no_input in sorted(self.violations, key=lambda v: v[1]):
+            print(f"VIOLATION property={self.pid} replay={path}" + (" no-failing-input-found" if no_input and not found else ""))
         shutil.rmtree(self.work, ignore_errors=True)
         print(f"[{self.pid}] {self.tier} done in {wall:.1f}s: "
               f"{'VIOLATIONS=' + str(len(self.violations)) if self.violations else 'ok'}")
